@@ -268,6 +268,13 @@ struct VerifProbe {
   template <class S> static int svd_minx_subset(const S& a) { return a.svd.minx != 0; }
   template <class C> static int chol_minx_subset(const C& c) { return c.minx_t != 0; }
   template <class C> static int chol_nullity(const C& c) { return c.nullity; }
+  template <class M> static void mtf_set(M& m, const std::vector<int>& keys, const std::vector<int>& bufs) {
+    m.active = keys.size();
+    for (size_t i = 0; i < keys.size(); i++) m.key_[i] = keys[i];
+    for (size_t i = 0; i < bufs.size(); i++) m.buf_[i] = bufs[i];
+  }
+  template <class M> static std::vector<int> mtf_keys(const M& m) { std::vector<int> k; for (size_t i = 0; i < m.active; i++) k.push_back(m.key_[i]); return k; }
+  template <class M> static std::vector<int> mtf_bufs(const M& m) { std::vector<int> k; for (size_t i = 0; i < m.size(); i++) k.push_back(m.buf_[i]); return k; }
   static int adj_solved(const Adj& a) { return a.solved; }
   static int adj_has_solver(const Adj& a) { return a.least_squares != nullptr; }
   static int adj_algorithm(const Adj& a) { return a.algorithm_; }
